@@ -823,9 +823,8 @@ func c13Record(t *testing.T) {
 		if k%6 == 5 { // every sixth run uses a memoising fetcher and re-fetches nodes (no tracker: keep the DAG small)
 			cfg = c13RandCfg(r, 12)
 			cfg.Cached, cfg.Trk = true, "none"
-			if len(cfg.Roots) > 2 {
-				cfg.Roots = cfg.Roots[:2]
-			}
+			cfg.Roots = []int{1, 1} // the second walk finds the memoised slices as the first one left them
+			cfg.Loc[0], cfg.Fok[0], cfg.Stop = true, true, 0
 		} else {
 			cfg.Cached = false
 		}
